@@ -7,6 +7,8 @@ mod controller;
 mod metadata;
 mod monitor;
 mod rpc;
+#[cfg(walrus_verif)]
+mod verif;
 
 use bucket::Storage;
 use clap::Parser;
